@@ -37,6 +37,7 @@ RULE = ('cases = (a) deterministic files for every rejection reason and for "not
         'rejected (duplicate cell id, duplicate/empty gene name, two genes -> one identifier). '
         'non-trivial = the matrix contains a boundary value OR >=2 identifier kinds (Ensembl / versioned Ensembl / symbol / unknown) are '
         'mixed; distinct = distinct spec hash' % len(g.BOUNDARY))
+RULE += '; additions: one GeneIdMapper object shared by the cases of a shard process (half of the cases), named obs / var indexes'
 ASSUMPTIONS = [
     'input domain: >=1 gene is an Ensembl id or a known symbol (otherwise "Could not map any of your genes" is raised by design); '
     'with an inferred mapper >=1 gene is a *known* Ensembl id or symbol; genes of one species only (no name of the file occurs in '
